@@ -283,27 +283,28 @@ Proof.
       destruct (negb ((adrp_src instr + 131072) / 262144 mod 8 =? 0)) eqn:ER.
       * cbn [app4]. unfold arm64_word. cbv zeta. fold instr. rewrite EBL, EC.
         fold (adrp_src instr). rewrite ER. reflexivity.
-      * set (dest := w32 (adrp_src instr + pos / 4096)).
+      * assert (H31 : instr / 2147483648 = 1 /\ instr / 16777216 mod 32 = 16) by (clear - EC; lia).
+        assert (HR : (adrp_src instr + 131072) / 262144 mod 8 = 0) by (clear - ER; lia).
+        assert (Hsrc : adrp_src instr < 2097152) by (clear; unfold adrp_src; lia).
+        assert (Hpc : pos / 4096 < 4294967296) by (clear - Hp; lia).
+        set (dest := w32 (adrp_src instr + pos / 4096)).
         fold (adrp_pack (instr mod 32) dest).
-        assert (Hrd : instr mod 32 < 32) by lia.
+        assert (Hrd : instr mod 32 < 32) by (clear; lia).
         destruct (adrp_pack_props (instr mod 32) dest Hrd) as (P1 & P2 & P3 & P4 & P5 & P6).
         set (I' := adrp_pack (instr mod 32) dest) in *.
         unfold put32le. cbn [app4]. unfold arm64_word. cbv zeta.
         rewrite (le32_put32le I' P1).
-        assert (E1 : I' / 67108864 =? 37 = false) by lia. rewrite E1.
-        assert (E2 : (I' / 2147483648 =? 1) && (I' / 16777216 mod 32 =? 16) = true) by lia. rewrite E2.
+        assert (E1 : I' / 67108864 =? 37 = false) by (clear - P2; lia). rewrite E1.
+        assert (E2 : (I' / 2147483648 =? 1) && (I' / 16777216 mod 32 =? 16) = true) by (clear - P3 P4; lia). rewrite E2.
         fold (adrp_src I'). rewrite P6.
         destruct (adrp_sext_range dest) as [R1 R2].
-        assert (E3 : negb ((adrp_sext dest + 131072) / 262144 mod 8 =? 0) = false) by lia. rewrite E3.
+        assert (E3 : negb ((adrp_sext dest + 131072) / 262144 mod 8 =? 0) = false) by (clear - R1; lia). rewrite E3.
         set (dest' := w32 (adrp_sext dest + neg32 (pos / 4096))).
         fold (adrp_pack (I' mod 32) dest'). rewrite P5.
-        apply andb_prop in EC. destruct EC as [EC1 EC2].
-        assert (Hsrc : adrp_src instr < 2097152) by (unfold adrp_src; lia).
-        assert (Hpc : pos / 4096 < 4294967296) by lia.
         pose proof (adrp_back (pos / 4096) (adrp_src instr) Hpc Hsrc) as BK.
         assert (EQ : adrp_pack (instr mod 32) dest' = instr).
         { rewrite (adrp_pack_cong _ dest' (adrp_src instr)).
-          - apply adrp_unpack; lia.
+          - apply adrp_unpack; [exact Hi|exact (proj1 H31)|exact (proj2 H31)|exact HR].
           - subst dest' dest. unfold neg32, w32. exact BK. }
         rewrite EQ. exact PL.
     + cbn [app4]. unfold arm64_word. cbv zeta. fold instr. rewrite EBL, EC. reflexivity.
